@@ -4,11 +4,26 @@
    derivative  T_{f X}(L d)  (group-valued f; T_Z v = tangent of e |-> Exp(e v) @ Z)  resp.  L d
    (vector-valued f), where L is the matrix whose transpose the modelled backward() multiplies the
    cotangent by (Model/LieJac.v: mul_bwd, inv_bwd, act_bwd, adj_bwd).  Exp near 0 is the model's
-   Taylor branch (C04_exp_near_zero_is_model). *)
+   Taylor branch (C04_exp_near_zero_is_model).
+   Added (Proofs/LieJac2.v .. LieJac7.v, LieJacPair2.v, LieJacBwd.v):
+   * all remaining SE3 ops, SO3 AdjT, and all ops of RxSO3 and Sim3 (perturbation curve with the scale component);
+   * the same statements for ARBITRARY differentiable curves X(e) with X(0) = X, X'(0) = T_X d (..._curve): the form that
+     composes over expression trees (d.. predicates: componentwise is_derive at 0, Proofs/LieJac2.v, LieJac3.v, LieJac5.v);
+   * Act4 (homogeneous points) for all four groups;
+   * so3 Exp: d/dh Exp(x + h dl)|_0 = T_{Exp x}(Jl(x) dl) on the closed-form branch and at x = 0; rxso3 Exp by blocks;
+     se3 Exp with se3_Jl = [[Jl, calcQ], [0, Jl]] on the closed-form branch;
+     SO3 / RxSO3 Log: d/de Log(Exp(e d) X)|_0 = Jl_inv(Log X) d on the principal closed-form branch;
+   * composition: Retr on SO3 (Exp backward then Mul) and the three-op SE3 program Act(Inv(X) @ Y, p), assembled from the
+     per-op curve statements;
+   * C04_backward_transpose_*: every modelled backward (mul, inv, act, act4, adj, adjT; all four groups) is the transpose
+     of the L of the corresponding derivative statement: <backward(g), d> = <g, L d>.
+   NOT proved: matrix(), sim3 Exp / SE3 and Sim3 Log backward (se3_Jl_inv, truncated sim3 series), Jinvp, Retr,
+   the chain-rule assembly over expression trees (the per-op curve statements are its ingredients). *)
 From Coq Require Import Reals List QArith.
 From Coquelicot Require Import Coquelicot.
 Import ListNotations.
-From PV Require Import Base.Num Model.LieGroup Model.LieExp Model.LieJac Proofs.LieGroup Proofs.LieExp Proofs.LieJac Proofs.LieJacQ Proofs.LieJacPair.
+From PV Require Import Base.Num Model.LieGroup Model.LieExp Model.LieLog Model.LieJac Proofs.LieGroup Proofs.LieExp Proofs.LieJac Proofs.LieJacQ Proofs.LieJacPair
+  Proofs.LieJac2 Proofs.LieJac3 Proofs.LieJac4 Proofs.LieJac5 Proofs.LieJac6 Proofs.LieJac7 Proofs.LieJacPair2 Proofs.LieJacBwd.
 Close Scope Q_scope.
 Local Open Scope R_scope.
 
@@ -79,7 +94,511 @@ Theorem C04_SE3_AdjT_old_refuted : exists X a gz : list Q,
   Qlist_eqb (snd (adjT_bwd 1 X a gz)) (adjT_true_a_grad 1 X gz) = true.
 Proof. exact adjT_old_refuted_SE3. Qed.
 
+(* ======================= SO3 AdjTXa:  L_X = Adj(X^-1) ad(a),  L_a = Adj(X^-1) ======================= *)
+Theorem C04_SO3_AdjT_dX : forall (X : quatR) a d i, unitq X ->
+  is_derive (fun e => vc i (SO3_AdjTXa (pertSO3 d X e) a)) 0 (vc i (SO3_AdjTXa X (vcross a d))).
+Proof. exact SO3_adjT_dX. Qed.
+Theorem C04_SO3_AdjT_da : forall (X : quatR) a da i,
+  is_derive (fun e => vc i (SO3_AdjTXa X (vadd a (vscale e da)))) 0 (vc i (SO3_AdjTXa X da)).
+Proof. exact SO3_adjT_da. Qed.
+Theorem C04_SO3_AdjT_dX_curve : forall (Q : R -> quatR) a d, unitq (Q 0) -> dq4 Q (tanSO3 d (Q 0)) ->
+  dv3 (fun e => SO3_AdjTXa (Q e) a) (SO3_AdjTXa (Q 0) (vcross a d)).
+Proof. exact SO3_adjT_dX_curve. Qed.
+
+(* ======================= SE3: the remaining operations ======================= *)
+Theorem C04_SE3_perturbation_start : forall d X, pertSE3 d X 0 = X.
+Proof. exact pertSE3_0. Qed.
+(* Mul, second argument: L = Adj(X) *)
+Theorem C04_SE3_Mul_dY : forall (X Y : se3R) d i, unitq (snd X) ->
+  is_derive (fun e => se3c i (SE3_mul X (pertSE3 d Y e))) 0 (se3c i (tanSE3 (SE3_AdjXa X d) (SE3_mul X Y))).
+Proof. exact SE3_mul_dY. Qed.
+(* Inv: L = -Adj(X^-1) *)
+Theorem C04_SE3_Inv : forall (X : se3R) d i, unitq (snd X) ->
+  is_derive (fun e => se3c i (SE3_inv (pertSE3 d X e))) 0
+            (se3c i (tanSE3 (v6neg (SE3_AdjXa (SE3_inv X) d)) (SE3_inv X))).
+Proof. exact SE3_inv_d. Qed.
+(* AdjXa: L_X = -ad(out), out = Adj(X) a;  L_a = Adj(X) *)
+Theorem C04_SE3_Adj_dX : forall (X : se3R) a d i, unitq (snd X) ->
+  is_derive (fun e => p6c i (SE3_AdjXa (pertSE3 d X e) a)) 0 (p6c i (v6neg (se3_ad (SE3_AdjXa X a) d))).
+Proof. exact SE3_adj_dX. Qed.
+Theorem C04_SE3_Adj_da : forall (X : se3R) a da i,
+  is_derive (fun e => p6c i (SE3_AdjXa X (v6add a (v6scale e da)))) 0 (p6c i (SE3_AdjXa X da)).
+Proof. exact SE3_adj_da. Qed.
+(* AdjTXa (the repaired adjT_bwd): L_X = Adj(X^-1) ad(a),  L_a = Adj(X^-1) *)
+Theorem C04_SE3_AdjT_dX : forall (X : se3R) a d i, unitq (snd X) ->
+  is_derive (fun e => p6c i (SE3_AdjTXa (pertSE3 d X e) a)) 0 (p6c i (SE3_AdjTXa X (se3_ad a d))).
+Proof. exact SE3_adjT_dX. Qed.
+Theorem C04_SE3_AdjT_da : forall (X : se3R) a da i,
+  is_derive (fun e => p6c i (SE3_AdjTXa X (v6add a (v6scale e da)))) 0 (p6c i (SE3_AdjTXa X da)).
+Proof. exact SE3_adjT_da. Qed.
+(* the same along arbitrary curves with X(0) = X, X'(0) = T_X d *)
+Theorem C04_SE3_Mul_dX_curve : forall (X : R -> se3R) (Y : se3R) d, unitq (snd (X 0)) -> dse3 X (tanSE3 d (X 0)) ->
+  dse3 (fun e => SE3_mul (X e) Y) (tanSE3 d (SE3_mul (X 0) Y)).
+Proof. exact SE3_mul_dX_curve. Qed.
+Theorem C04_SE3_Mul_dY_curve : forall (X : se3R) (Y : R -> se3R) d, unitq (snd X) -> dse3 Y (tanSE3 d (Y 0)) ->
+  dse3 (fun e => SE3_mul X (Y e)) (tanSE3 (SE3_AdjXa X d) (SE3_mul X (Y 0))).
+Proof. exact SE3_mul_dY_curve. Qed.
+Theorem C04_SE3_Inv_curve : forall (X : R -> se3R) d, unitq (snd (X 0)) -> dse3 X (tanSE3 d (X 0)) ->
+  dse3 (fun e => SE3_inv (X e)) (tanSE3 (v6neg (SE3_AdjXa (SE3_inv (X 0)) d)) (SE3_inv (X 0))).
+Proof. exact SE3_inv_curve. Qed.
+Theorem C04_SE3_Adj_dX_curve : forall (X : R -> se3R) a d, unitq (snd (X 0)) -> dse3 X (tanSE3 d (X 0)) ->
+  dv6 (fun e => SE3_AdjXa (X e) a) (v6neg (se3_ad (SE3_AdjXa (X 0) a) d)).
+Proof. exact SE3_adj_dX_curve. Qed.
+Theorem C04_SE3_Adj_da_curve : forall (X : se3R) (a : R -> v6) a', dv6 a a' -> dv6 (fun e => SE3_AdjXa X (a e)) (SE3_AdjXa X a').
+Proof. exact SE3_adj_da_curve. Qed.
+Theorem C04_SE3_AdjT_dX_curve : forall (X : R -> se3R) a d, unitq (snd (X 0)) -> dse3 X (tanSE3 d (X 0)) ->
+  dv6 (fun e => SE3_AdjTXa (X e) a) (SE3_AdjTXa (X 0) (se3_ad a d)).
+Proof. exact SE3_adjT_dX_curve. Qed.
+Theorem C04_SE3_AdjT_da_curve : forall (X : se3R) (a : R -> v6) a', dv6 a a' -> dv6 (fun e => SE3_AdjTXa X (a e)) (SE3_AdjTXa X a').
+Proof. exact SE3_adjT_da_curve. Qed.
+(* the curve predicates are componentwise derivatives at 0 *)
+Theorem C04_curve_predicates :
+  (forall X X', dse3 X X' <-> forall i, is_derive (fun e => se3c i (X e)) 0 (se3c i X')) /\
+  (forall a a', dv6 a a' <-> forall i, is_derive (fun e => p6c i (a e)) 0 (p6c i a')) /\
+  (forall X X', drx X X' <-> forall i, is_derive (fun e => rxc i (X e)) 0 (rxc i X')) /\
+  (forall a a', dv4 a a' <-> forall i, is_derive (fun e => p4c i (a e)) 0 (p4c i a')) /\
+  (forall X X', dsim3 X X' <-> forall i, is_derive (fun e => sim3c i (X e)) 0 (sim3c i X')) /\
+  (forall a a', dv7 a a' <-> forall i, is_derive (fun e => p7c i (a e)) 0 (p7c i a')).
+Proof. split; [exact dse3_c | split; [exact dv6_c | split; [exact drx_c | split; [exact dv4_c | split; [exact dsim3_c | exact dv7_c]]]]]. Qed.
+
+(* ======================= RxSO3 ======================= *)
+Theorem C04_RxSO3_exp_near_zero_is_model : forall (eps : R) (x : v4), vnorm (fst x) <= eps -> rxso3_exp eps x = exp0_rxso3 x.
+Proof. exact exp0_rxso3_is_model. Qed.
+Theorem C04_RxSO3_perturbation : forall d X i,
+  pertRxSO3 d X 0 = X /\ is_derive (fun e => rxc i (pertRxSO3 d X e)) 0 (rxc i (tanRxSO3 d X)).
+Proof. intros d X i. split; [apply pertRxSO3_0 | apply pertRxSO3_tan]. Qed.
+Theorem C04_RxSO3_Mul_dX : forall (X Y : rxso3R) d e, RxSO3_mul (pertRxSO3 d X e) Y = pertRxSO3 d (RxSO3_mul X Y) e.
+Proof. exact RxSO3_mul_dX. Qed.
+Theorem C04_RxSO3_Mul_dY : forall (X Y : rxso3R) d i, unitq (fst X) ->
+  is_derive (fun e => rxc i (RxSO3_mul X (pertRxSO3 d Y e))) 0 (rxc i (tanRxSO3 (RxSO3_AdjXa X d) (RxSO3_mul X Y))).
+Proof. exact RxSO3_mul_dY. Qed.
+Theorem C04_RxSO3_Inv : forall (X : rxso3R) d i, unitq (fst X) -> snd X <> 0 ->
+  is_derive (fun e => rxc i (RxSO3_inv (pertRxSO3 d X e))) 0
+            (rxc i (tanRxSO3 (v4neg (RxSO3_AdjXa (RxSO3_inv X) d)) (RxSO3_inv X))).
+Proof. exact RxSO3_inv_d. Qed.
+(* Act: L_X = [skew(-out), out] (= RxSO3_Act_Jacobian(out)),  L_p = s R *)
+Theorem C04_RxSO3_Act_dX : forall (X : rxso3R) p d i, unitq (fst X) ->
+  is_derive (fun e => vc i (RxSO3_act (pertRxSO3 d X e) p)) 0
+            (vc i (vadd (mvmul (skew (vneg (RxSO3_act X p))) (fst d)) (vscale (snd d) (RxSO3_act X p)))).
+Proof. exact RxSO3_act_dX. Qed.
+Theorem C04_RxSO3_Act_dp : forall (X : rxso3R) p dp i, unitq (fst X) ->
+  is_derive (fun e => vc i (RxSO3_act X (vadd p (vscale e dp)))) 0 (vc i (mvmul (mscale3 (snd X) (SO3_Adj (fst X))) dp)).
+Proof. exact RxSO3_act_dp. Qed.
+Theorem C04_RxSO3_Adj_dX : forall (X : rxso3R) a d i, unitq (fst X) ->
+  is_derive (fun e => p4c i (RxSO3_AdjXa (pertRxSO3 d X e) a)) 0 (p4c i (v4neg (rxso3_ad (RxSO3_AdjXa X a) d))).
+Proof. exact RxSO3_adj_dX. Qed.
+Theorem C04_RxSO3_Adj_da : forall (X : rxso3R) a da i,
+  is_derive (fun e => p4c i (RxSO3_AdjXa X (v4add a (v4scale e da)))) 0 (p4c i (RxSO3_AdjXa X da)).
+Proof. exact RxSO3_adj_da. Qed.
+Theorem C04_RxSO3_AdjT_dX : forall (X : rxso3R) a d i, unitq (fst X) ->
+  is_derive (fun e => p4c i (RxSO3_AdjTXa (pertRxSO3 d X e) a)) 0 (p4c i (RxSO3_AdjTXa X (rxso3_ad a d))).
+Proof. exact RxSO3_adjT_dX. Qed.
+Theorem C04_RxSO3_AdjT_da : forall (X : rxso3R) a da i,
+  is_derive (fun e => p4c i (RxSO3_AdjTXa X (v4add a (v4scale e da)))) 0 (p4c i (RxSO3_AdjTXa X da)).
+Proof. exact RxSO3_adjT_da. Qed.
+(* along arbitrary curves *)
+Theorem C04_RxSO3_Mul_dX_curve : forall (X : R -> rxso3R) (Y : rxso3R) d, drx X (tanRxSO3 d (X 0)) ->
+  drx (fun e => RxSO3_mul (X e) Y) (tanRxSO3 d (RxSO3_mul (X 0) Y)).
+Proof. exact RxSO3_mul_dX_curve. Qed.
+Theorem C04_RxSO3_Mul_dY_curve : forall (X : rxso3R) (Y : R -> rxso3R) d, unitq (fst X) -> drx Y (tanRxSO3 d (Y 0)) ->
+  drx (fun e => RxSO3_mul X (Y e)) (tanRxSO3 (RxSO3_AdjXa X d) (RxSO3_mul X (Y 0))).
+Proof. exact RxSO3_mul_dY_curve. Qed.
+Theorem C04_RxSO3_Inv_curve : forall (X : R -> rxso3R) d, unitq (fst (X 0)) -> snd (X 0) <> 0 -> drx X (tanRxSO3 d (X 0)) ->
+  drx (fun e => RxSO3_inv (X e)) (tanRxSO3 (v4neg (RxSO3_AdjXa (RxSO3_inv (X 0)) d)) (RxSO3_inv (X 0))).
+Proof. exact RxSO3_inv_curve. Qed.
+Theorem C04_RxSO3_Act_dX_curve : forall (X : R -> rxso3R) p d, unitq (fst (X 0)) -> drx X (tanRxSO3 d (X 0)) ->
+  dv3 (fun e => RxSO3_act (X e) p)
+      (vadd (mvmul (skew (vneg (RxSO3_act (X 0) p))) (fst d)) (vscale (snd d) (RxSO3_act (X 0) p))).
+Proof. exact RxSO3_act_dX_curve. Qed.
+Theorem C04_RxSO3_Act_dp_curve : forall (X : rxso3R) (p : R -> vec3R) p', unitq (fst X) -> dv3 p p' ->
+  dv3 (fun e => RxSO3_act X (p e)) (mvmul (mscale3 (snd X) (SO3_Adj (fst X))) p').
+Proof. exact RxSO3_act_dp_curve. Qed.
+Theorem C04_RxSO3_Adj_dX_curve : forall (X : R -> rxso3R) a d, unitq (fst (X 0)) -> drx X (tanRxSO3 d (X 0)) ->
+  dv4 (fun e => RxSO3_AdjXa (X e) a) (v4neg (rxso3_ad (RxSO3_AdjXa (X 0) a) d)).
+Proof. exact RxSO3_adj_dX_curve. Qed.
+Theorem C04_RxSO3_AdjT_dX_curve : forall (X : R -> rxso3R) a d, unitq (fst (X 0)) -> drx X (tanRxSO3 d (X 0)) ->
+  dv4 (fun e => RxSO3_AdjTXa (X e) a) (RxSO3_AdjTXa (X 0) (rxso3_ad a d)).
+Proof. exact RxSO3_adjT_dX_curve. Qed.
+
+(* ======================= Sim3 ======================= *)
+Theorem C04_Sim3_exp_near_zero_is_model : forall (eps : R) (x : v7), Rabs (snd x) <= eps -> vnorm (snd (fst x)) <= eps ->
+  sim3_exp eps (fst (fst x), (snd (fst x), snd x)) = exp0_sim3 x.
+Proof. exact exp0_sim3_is_model. Qed.
+Theorem C04_Sim3_perturbation : forall d X i,
+  pertSim3 d X 0 = X /\ is_derive (fun e => sim3c i (pertSim3 d X e)) 0 (sim3c i (tanSim3 d X)).
+Proof. intros d X i. split; [apply pertSim3_0 | apply pertSim3_tan]. Qed.
+Theorem C04_Sim3_Mul_dX : forall (X Y : sim3R) d i, unitq (fst (snd X)) ->
+  is_derive (fun e => sim3c i (Sim3_mul (pertSim3 d X e) Y)) 0 (sim3c i (tanSim3 d (Sim3_mul X Y))).
+Proof. exact Sim3_mul_dX. Qed.
+Theorem C04_Sim3_Mul_dY : forall (X Y : sim3R) d i, unitq (fst (snd X)) ->
+  is_derive (fun e => sim3c i (Sim3_mul X (pertSim3 d Y e))) 0 (sim3c i (tanSim3 (Sim3_AdjXa X d) (Sim3_mul X Y))).
+Proof. exact Sim3_mul_dY. Qed.
+Theorem C04_Sim3_Inv : forall (X : sim3R) d i, unitq (fst (snd X)) -> snd (snd X) <> 0 ->
+  is_derive (fun e => sim3c i (Sim3_inv (pertSim3 d X e))) 0
+            (sim3c i (tanSim3 (v7neg (Sim3_AdjXa (Sim3_inv X) d)) (Sim3_inv X))).
+Proof. exact Sim3_inv_d. Qed.
+(* Act: L_X = [I, skew(-out), out] (= Sim3_Act_Jacobian(out)),  L_p = s R *)
+Theorem C04_Sim3_Act_dX : forall (X : sim3R) p d i, unitq (fst (snd X)) ->
+  is_derive (fun e => vc i (Sim3_act (pertSim3 d X e) p)) 0
+            (vc i (vadd (vadd (fst (fst d)) (mvmul (skew (vneg (Sim3_act X p))) (snd (fst d)))) (vscale (snd d) (Sim3_act X p)))).
+Proof. exact Sim3_act_dX. Qed.
+Theorem C04_Sim3_Act_dp : forall (X : sim3R) p dp i, unitq (fst (snd X)) ->
+  is_derive (fun e => vc i (Sim3_act X (vadd p (vscale e dp)))) 0
+            (vc i (mvmul (mscale3 (snd (snd X)) (SO3_Adj (fst (snd X)))) dp)).
+Proof. exact Sim3_act_dp. Qed.
+Theorem C04_Sim3_Adj_dX : forall (X : sim3R) a d i, unitq (fst (snd X)) ->
+  is_derive (fun e => p7c i (Sim3_AdjXa (pertSim3 d X e) a)) 0 (p7c i (v7neg (sim3_ad (Sim3_AdjXa X a) d))).
+Proof. exact Sim3_adj_dX. Qed.
+Theorem C04_Sim3_Adj_da : forall (X : sim3R) a da i,
+  is_derive (fun e => p7c i (Sim3_AdjXa X (v7add a (v7scale e da)))) 0 (p7c i (Sim3_AdjXa X da)).
+Proof. exact Sim3_adj_da. Qed.
+(* AdjTXa (the repaired adjT_bwd) *)
+Theorem C04_Sim3_AdjT_dX : forall (X : sim3R) a d i, unitq (fst (snd X)) -> snd (snd X) <> 0 ->
+  is_derive (fun e => p7c i (Sim3_AdjTXa (pertSim3 d X e) a)) 0 (p7c i (Sim3_AdjTXa X (sim3_ad a d))).
+Proof. exact Sim3_adjT_dX. Qed.
+Theorem C04_Sim3_AdjT_da : forall (X : sim3R) a da i,
+  is_derive (fun e => p7c i (Sim3_AdjTXa X (v7add a (v7scale e da)))) 0 (p7c i (Sim3_AdjTXa X da)).
+Proof. exact Sim3_adjT_da. Qed.
+(* along arbitrary curves *)
+Theorem C04_Sim3_Mul_dX_curve : forall (X : R -> sim3R) (Y : sim3R) d, unitq (fst (snd (X 0))) -> dsim3 X (tanSim3 d (X 0)) ->
+  dsim3 (fun e => Sim3_mul (X e) Y) (tanSim3 d (Sim3_mul (X 0) Y)).
+Proof. exact Sim3_mul_dX_curve. Qed.
+Theorem C04_Sim3_Mul_dY_curve : forall (X : sim3R) (Y : R -> sim3R) d, unitq (fst (snd X)) -> dsim3 Y (tanSim3 d (Y 0)) ->
+  dsim3 (fun e => Sim3_mul X (Y e)) (tanSim3 (Sim3_AdjXa X d) (Sim3_mul X (Y 0))).
+Proof. exact Sim3_mul_dY_curve. Qed.
+Theorem C04_Sim3_Inv_curve : forall (X : R -> sim3R) d, unitq (fst (snd (X 0))) -> snd (snd (X 0)) <> 0 -> dsim3 X (tanSim3 d (X 0)) ->
+  dsim3 (fun e => Sim3_inv (X e)) (tanSim3 (v7neg (Sim3_AdjXa (Sim3_inv (X 0)) d)) (Sim3_inv (X 0))).
+Proof. exact Sim3_inv_curve. Qed.
+Theorem C04_Sim3_Act_dX_curve : forall (X : R -> sim3R) p d, unitq (fst (snd (X 0))) -> dsim3 X (tanSim3 d (X 0)) ->
+  dv3 (fun e => Sim3_act (X e) p)
+      (vadd (vadd (fst (fst d)) (mvmul (skew (vneg (Sim3_act (X 0) p))) (snd (fst d)))) (vscale (snd d) (Sim3_act (X 0) p))).
+Proof. exact Sim3_act_dX_curve. Qed.
+Theorem C04_Sim3_Act_dp_curve : forall (X : sim3R) (p : R -> vec3R) p', unitq (fst (snd X)) -> dv3 p p' ->
+  dv3 (fun e => Sim3_act X (p e)) (mvmul (mscale3 (snd (snd X)) (SO3_Adj (fst (snd X)))) p').
+Proof. exact Sim3_act_dp_curve. Qed.
+Theorem C04_Sim3_Adj_dX_curve : forall (X : R -> sim3R) a d, unitq (fst (snd (X 0))) -> dsim3 X (tanSim3 d (X 0)) ->
+  dv7 (fun e => Sim3_AdjXa (X e) a) (v7neg (sim3_ad (Sim3_AdjXa (X 0) a) d)).
+Proof. exact Sim3_adj_dX_curve. Qed.
+Theorem C04_Sim3_AdjT_dX_curve : forall (X : R -> sim3R) a d, unitq (fst (snd (X 0))) -> snd (snd (X 0)) <> 0 ->
+  dsim3 X (tanSim3 d (X 0)) -> dv7 (fun e => Sim3_AdjTXa (X e) a) (Sim3_AdjTXa (X 0) (sim3_ad a d)).
+Proof. exact Sim3_adjT_dX_curve. Qed.
+Theorem C04_Sim3_hypotheses_satisfiable : let X : sim3R := ((1, 2, 3), (((3/5, 0, 0), 4/5), 2)) in
+  unitq (fst (snd X)) /\ snd (snd X) <> 0.
+Proof. exact sim3_hyps_example. Qed.
+
+(* ======================= Act along arbitrary curves (SO3, SE3) and Act4 (all groups) ======================= *)
+Theorem C04_SO3_Act_dX_curve : forall (Q : R -> quatR) p d, unitq (Q 0) -> dq4 Q (tanSO3 d (Q 0)) ->
+  dv3 (fun e => SO3_act (Q e) p) (mvmul (skew (vneg (SO3_act (Q 0) p))) d).
+Proof. exact SO3_act_dX_curve. Qed.
+Theorem C04_SO3_Act_dp_curve : forall (X : quatR) (p : R -> vec3R) p', unitq X -> dv3 p p' ->
+  dv3 (fun e => SO3_act X (p e)) (mvmul (SO3_Adj X) p').
+Proof. exact SO3_act_dp_curve. Qed.
+Theorem C04_SE3_Act_dX_curve : forall (X : R -> se3R) p d, unitq (snd (X 0)) -> dse3 X (tanSE3 d (X 0)) ->
+  dv3 (fun e => SE3_act (X e) p) (vadd (fst d) (mvmul (skew (vneg (SE3_act (X 0) p))) (snd d))).
+Proof. exact SE3_act_dX_curve. Qed.
+Theorem C04_SE3_Act_dp_curve : forall (X : se3R) (p : R -> vec3R) p', unitq (snd X) -> dv3 p p' ->
+  dv3 (fun e => SE3_act X (p e)) (mvmul (SO3_Adj (snd X)) p').
+Proof. exact SE3_act_dp_curve. Qed.
+(* Act4(X, (p, w)) = (sR p + w t, w):  L_X = *_Act4_Jacobian(out),  L_p = [[sR, t], [0, 1]] *)
+Theorem C04_SO3_Act4_dX_curve : forall (Q : R -> quatR) (P : vec4R) d, unitq (Q 0) -> dq4 Q (tanSO3 d (Q 0)) ->
+  dv4h (fun e => SO3_act4 (Q e) P) (mvmul (skew (vneg (fst (SO3_act4 (Q 0) P)))) d, 0).
+Proof. exact SO3_act4_dX_curve. Qed.
+Theorem C04_SO3_Act4_dp_curve : forall (X : quatR) (P : R -> vec4R) P', unitq X -> dv4h P P' ->
+  dv4h (fun e => SO3_act4 X (P e)) (mvmul (SO3_Adj X) (fst P'), snd P').
+Proof. exact SO3_act4_dp_curve. Qed.
+Theorem C04_SE3_Act4_dX_curve : forall (X : R -> se3R) (P : vec4R) d, unitq (snd (X 0)) -> dse3 X (tanSE3 d (X 0)) ->
+  dv4h (fun e => SE3_act4 (X e) P)
+       (vadd (vscale (snd P) (fst d)) (mvmul (skew (vneg (fst (SE3_act4 (X 0) P)))) (snd d)), 0).
+Proof. exact SE3_act4_dX_curve. Qed.
+Theorem C04_SE3_Act4_dp_curve : forall (X : se3R) (P : R -> vec4R) P', unitq (snd X) -> dv4h P P' ->
+  dv4h (fun e => SE3_act4 X (P e)) (vadd (mvmul (SO3_Adj (snd X)) (fst P')) (vscale (snd P') (fst X)), snd P').
+Proof. exact SE3_act4_dp_curve. Qed.
+Theorem C04_RxSO3_Act4_dX_curve : forall (X : R -> rxso3R) (P : vec4R) d, unitq (fst (X 0)) -> drx X (tanRxSO3 d (X 0)) ->
+  dv4h (fun e => RxSO3_act4 (X e) P)
+       (vadd (mvmul (skew (vneg (fst (RxSO3_act4 (X 0) P)))) (fst d)) (vscale (snd d) (fst (RxSO3_act4 (X 0) P))), 0).
+Proof. exact RxSO3_act4_dX_curve. Qed.
+Theorem C04_RxSO3_Act4_dp_curve : forall (X : rxso3R) (P : R -> vec4R) P', unitq (fst X) -> dv4h P P' ->
+  dv4h (fun e => RxSO3_act4 X (P e)) (mvmul (mscale3 (snd X) (SO3_Adj (fst X))) (fst P'), snd P').
+Proof. exact RxSO3_act4_dp_curve. Qed.
+Theorem C04_Sim3_Act4_dX_curve : forall (X : R -> sim3R) (P : vec4R) d, unitq (fst (snd (X 0))) -> dsim3 X (tanSim3 d (X 0)) ->
+  dv4h (fun e => Sim3_act4 (X e) P)
+       (vadd (vadd (vscale (snd P) (fst (fst d))) (mvmul (skew (vneg (fst (Sim3_act4 (X 0) P)))) (snd (fst d))))
+             (vscale (snd d) (fst (Sim3_act4 (X 0) P))), 0).
+Proof. exact Sim3_act4_dX_curve. Qed.
+Theorem C04_Sim3_Act4_dp_curve : forall (X : sim3R) (P : R -> vec4R) P', unitq (fst (snd X)) -> dv4h P P' ->
+  dv4h (fun e => Sim3_act4 X (P e))
+       (vadd (mvmul (mscale3 (snd (snd X)) (SO3_Adj (fst (snd X)))) (fst P')) (vscale (snd P') (fst X)), snd P').
+Proof. exact Sim3_act4_dp_curve. Qed.
+(* the perturbation curves themselves are such curves *)
+Theorem C04_perturbation_curves :
+  (forall d X, dq4 (pertSO3 d X) (tanSO3 d (pertSO3 d X 0))) /\ (forall d X, dse3 (pertSE3 d X) (tanSE3 d (pertSE3 d X 0))) /\
+  (forall d X, drx (pertRxSO3 d X) (tanRxSO3 d (pertRxSO3 d X 0))) /\ (forall d X, dsim3 (pertSim3 d X) (tanSim3 d (pertSim3 d X 0))).
+Proof. split; [exact pertSO3_curve | split; [exact pertSE3_curve | split; [exact pertRxSO3_curve | exact pertSim3_curve]]]. Qed.
+
+(* ======================= Exp and Log ======================= *)
+(* so3_Exp.backward multiplies by so3_Jl(x): d/dh Exp(x + h dl) at 0 is the left perturbation of Exp(x) by Jl(x) dl *)
+Theorem C04_so3_Exp_dx : forall (eps : R) (x dl : vec3R) i, 0 <= eps -> eps < vnorm x ->
+  is_derive (fun h => qc i (so3_exp eps (vadd x (vscale h dl)))) 0
+            (qc i (tanSO3 (mvmul (so3_Jl eps x) dl) (so3_exp eps x))).
+Proof. exact so3_exp_dx. Qed.
+Theorem C04_so3_Exp_dx_zero : forall (eps : R) (dl : vec3R) i, 0 < eps ->
+  is_derive (fun h => qc i (so3_exp eps (vadd vzero (vscale h dl)))) 0
+            (qc i (tanSO3 (mvmul (so3_Jl eps vzero) dl) (so3_exp eps vzero))).
+Proof. exact so3_exp_dx_zero. Qed.
+Theorem C04_rxso3_Exp_dx : forall (eps : R) (x dl : v4) i, 0 <= eps -> eps < vnorm (fst x) ->
+  is_derive (fun h => rxc i (rxso3_exp eps (v4add x (v4scale h dl)))) 0
+            (rxc i (tanRxSO3 (mvmul (so3_Jl eps (fst x)) (fst dl), snd dl) (rxso3_exp eps x))).
+Proof. exact rxso3_exp_dx. Qed.
+(* se3_Exp.backward multiplies by se3_Jl(x) = [[Jl, Q], [0, Jl]], Q = calcQ(x) *)
+Theorem C04_se3_Exp_dx : forall (eps : R) (x dl : v6) i, 0 <= eps -> eps < vnorm (snd x) ->
+  is_derive (fun h => se3c i (se3_exp eps (v6add x (v6scale h dl)))) 0
+    (se3c i (tanSE3 (vadd (mvmul (so3_Jl eps (snd x)) (fst dl)) (mvmul (calcQ eps (v6_l x)) (snd dl)),
+                     mvmul (so3_Jl eps (snd x)) (snd dl)) (se3_exp eps x))).
+Proof. exact se3_exp_dx. Qed.
+(* SO3_Log.backward multiplies by so3_Jl_inv(output): principal closed-form branch (eps < |v|, eps < w) *)
+Theorem C04_SO3_Log_dX : forall (eps : R) (X : quatR) d i, 0 <= eps -> unitq X ->
+  eps < vnorm (qv X) -> eps < qw X -> eps < vnorm (SO3_log eps X) ->
+  is_derive (fun e => vc i (SO3_log eps (pertSO3 d X e))) 0 (vc i (mvmul (so3_Jl_inv eps (SO3_log eps X)) d)).
+Proof. exact SO3_log_dX. Qed.
+Theorem C04_SO3_Log_dX_curve : forall (eps : R) (Q : R -> quatR) d, 0 <= eps -> unitq (Q 0) ->
+  eps < vnorm (qv (Q 0)) -> eps < qw (Q 0) -> eps < vnorm (SO3_log eps (Q 0)) -> dq4 Q (tanSO3 d (Q 0)) ->
+  dv3 (fun e => SO3_log eps (Q e)) (mvmul (so3_Jl_inv eps (SO3_log eps (Q 0))) d).
+Proof. exact SO3_log_dX_curve. Qed.
+Theorem C04_RxSO3_Log_dX_curve : forall (eps : R) (X : R -> rxso3R) d, 0 <= eps -> unitq (fst (X 0)) -> 0 < snd (X 0) ->
+  eps < vnorm (qv (fst (X 0))) -> eps < qw (fst (X 0)) -> eps < vnorm (SO3_log eps (fst (X 0))) ->
+  drx X (tanRxSO3 d (X 0)) ->
+  dv4 (fun e => RxSO3_log eps (X e)) (mvmul (so3_Jl_inv eps (fst (RxSO3_log eps (X 0)))) (fst d), snd d).
+Proof. exact RxSO3_log_dX_curve. Qed.
+Theorem C04_Log_hypotheses_satisfiable : let eps := 1 / 1000 in let X : quatR := ((3/5, 0, 0), 4/5) in
+  0 <= eps /\ unitq X /\ eps < vnorm (qv X) /\ eps < qw X /\ eps < vnorm (SO3_log eps X).
+Proof. exact SO3_log_hyps_example. Qed.
+
+(* ======================= the per-op statements compose: two composite programs ======================= *)
+Theorem C04_SO3_Mul_dX_curve : forall (Q : R -> quatR) (Y : quatR) d, dq4 Q (tanSO3 d (Q 0)) ->
+  dq4 (fun e => SO3_mul (Q e) Y) (tanSO3 d (SO3_mul (Q 0) Y)).
+Proof. exact SO3_mul_dX_curve. Qed.
+Theorem C04_SO3_Mul_dY_curve : forall (X : quatR) (Q : R -> quatR) d, unitq X -> dq4 Q (tanSO3 d (Q 0)) ->
+  dq4 (fun e => SO3_mul X (Q e)) (tanSO3 (mvmul (SO3_Adj X) d) (SO3_mul X (Q 0))).
+Proof. exact SO3_mul_dY_curve. Qed.
+Theorem C04_SO3_Inv_curve : forall (Q : R -> quatR) d, unitq (Q 0) -> dq4 Q (tanSO3 d (Q 0)) ->
+  dq4 (fun e => SO3_inv (Q e)) (tanSO3 (vneg (mvmul (SO3_Adj (SO3_inv (Q 0))) d)) (SO3_inv (Q 0))).
+Proof. exact SO3_inv_curve. Qed.
+(* Retr(X, a) = Exp(a) @ X on SO3: gradient w.r.t. a is Jl(a), w.r.t. X it is Adj(Exp a) *)
+Theorem C04_SO3_Retr_da : forall (eps : R) (X : quatR) (a da : vec3R) i, 0 <= eps -> eps < vnorm a ->
+  is_derive (fun h => qc i (SO3_mul (so3_exp eps (vadd a (vscale h da))) X)) 0
+            (qc i (tanSO3 (mvmul (so3_Jl eps a) da) (SO3_mul (so3_exp eps a) X))).
+Proof. exact SO3_retr_da. Qed.
+Theorem C04_SO3_Retr_dX : forall (eps : R) (X : quatR) (a d : vec3R) i, 0 <= eps -> eps < vnorm a ->
+  is_derive (fun e => qc i (SO3_mul (so3_exp eps a) (pertSO3 d X e))) 0
+            (qc i (tanSO3 (mvmul (SO3_Adj (so3_exp eps a)) d) (SO3_mul (so3_exp eps a) X))).
+Proof. exact SO3_retr_dX. Qed.
+(* X |-> Act(Inv(X) @ Y, p) on SE3: L = act_jac(out) . I . (-Adj(X^-1)) *)
+Theorem C04_SE3_composite_inv_mul_act : forall (X : R -> se3R) (Y : se3R) p d,
+  unitq (snd (X 0)) -> unitq (snd Y) -> dse3 X (tanSE3 d (X 0)) ->
+  let d1 := v6neg (SE3_AdjXa (SE3_inv (X 0)) d) in
+  let out := SE3_act (SE3_mul (SE3_inv (X 0)) Y) p in
+  dv3 (fun e => SE3_act (SE3_mul (SE3_inv (X e)) Y) p) (vadd (fst d1) (mvmul (skew (vneg out)) (snd d1))).
+Proof. exact SE3_inv_mul_act_dX. Qed.
+
+(* ======================= every modelled backward is the transpose of L ======================= *)
+Theorem C04_backward_transpose_SO3 :
+  (forall X gz d : list R, length X = 4%nat -> length gz = 4%nat -> length d = 3%nat ->
+     ldot (firstn 3 (fst (mul_bwd 0 X gz))) d = ldot (firstn 3 gz) d) /\
+  (forall X gz d : list R, length X = 4%nat -> length gz = 4%nat -> length d = 3%nat ->
+     ldot (firstn 3 (snd (mul_bwd 0 X gz))) d = ldot (firstn 3 gz) (v3_l (SO3_AdjXa (l_q X) (l_v3 d)))) /\
+  (forall X gz d : list R, length X = 4%nat -> length gz = 4%nat -> length d = 3%nat ->
+     ldot (firstn 3 (inv_bwd 0 X gz)) d = ldot (firstn 3 gz) (v3_l (vneg (SO3_AdjXa (l_q X) (l_v3 d))))) /\
+  (forall X o gp d : list R, length X = 4%nat -> length o = 3%nat -> length gp = 3%nat -> length d = 3%nat ->
+     ldot (firstn 3 (fst (act_bwd 0 X o gp))) d = ldot gp (v3_l (mvmul (skew (vneg (l_v3 o))) (l_v3 d)))) /\
+  (forall X o gp d : list R, length X = 4%nat -> length o = 3%nat -> length gp = 3%nat -> length d = 3%nat ->
+     ldot (snd (act_bwd 0 X o gp)) d = ldot gp (v3_l (mvmul (SO3_Adj (l_q X)) (l_v3 d)))) /\
+  (forall X o gp d : list R, length X = 4%nat -> length o = 4%nat -> length gp = 4%nat -> length d = 3%nat ->
+     ldot (firstn 3 (fst (act4_bwd 0 X o gp))) d = ldot gp (v3_l (mvmul (skew (vneg (l_v3 o))) (l_v3 d)) ++ [0])) /\
+  (forall X o gp d : list R, length X = 4%nat -> length o = 4%nat -> length gp = 4%nat -> length d = 4%nat ->
+     ldot (snd (act4_bwd 0 X o gp)) d = ldot gp (v3_l (vadd (mvmul (SO3_Adj (l_q X)) (l_v3 d)) (vscale (nth 3 d 0) (vzero))) ++ [nth 3 d 0])) /\
+  (forall X o gz d : list R, length X = 4%nat -> length o = 3%nat -> length gz = 3%nat -> length d = 3%nat ->
+     ldot (firstn 3 (fst (adj_bwd 0 X o gz))) d = ldot gz (v3_l (vneg (vcross (l_v3 o) (l_v3 d))))) /\
+  (forall X o gz d : list R, length X = 4%nat -> length o = 3%nat -> length gz = 3%nat -> length d = 3%nat ->
+     ldot (snd (adj_bwd 0 X o gz)) d = ldot gz (v3_l (SO3_AdjXa (l_q X) (l_v3 d)))) /\
+  (forall X a gz d : list R, length X = 4%nat -> length a = 3%nat -> length gz = 3%nat -> length d = 3%nat ->
+     ldot (firstn 3 (fst (adjT_bwd 0 X a gz))) d = ldot gz (v3_l (SO3_AdjTXa (l_q X) (vcross (l_v3 a) (l_v3 d))))) /\
+  (forall X a gz d : list R, length X = 4%nat -> length a = 3%nat -> length gz = 3%nat -> length d = 3%nat ->
+     ldot (snd (adjT_bwd 0 X a gz)) d = ldot gz (v3_l (SO3_AdjTXa (l_q X) (l_v3 d)))).
+Proof. repeat split; [exact mul_bwd_SO3_X | exact mul_bwd_SO3_Y | exact inv_bwd_SO3 | exact act_bwd_SO3_X | exact act_bwd_SO3_p | exact act4_bwd_SO3_X | exact act4_bwd_SO3_p | exact adj_bwd_SO3_X | exact adj_bwd_SO3_a | exact adjT_bwd_SO3_X | exact adjT_bwd_SO3_a]. Qed.
+Theorem C04_backward_transpose_SE3 :
+  (forall X gz d : list R, length X = 7%nat -> length gz = 7%nat -> length d = 6%nat ->
+     ldot (firstn 6 (fst (mul_bwd 1 X gz))) d = ldot (firstn 6 gz) d) /\
+  (forall X gz d : list R, length X = 7%nat -> length gz = 7%nat -> length d = 6%nat ->
+     ldot (firstn 6 (snd (mul_bwd 1 X gz))) d = ldot (firstn 6 gz) (v6_l (SE3_AdjXa (l_SE3 X) (l_pair3 d)))) /\
+  (forall X gz d : list R, length X = 7%nat -> length gz = 7%nat -> length d = 6%nat ->
+     ldot (firstn 6 (inv_bwd 1 X gz)) d = ldot (firstn 6 gz) (v6_l (v6neg (SE3_AdjXa (l_SE3 X) (l_pair3 d))))) /\
+  (forall X o gp d : list R, length X = 7%nat -> length o = 3%nat -> length gp = 3%nat -> length d = 6%nat ->
+     ldot (firstn 6 (fst (act_bwd 1 X o gp))) d = ldot gp (v3_l (vadd (fst (l_pair3 d)) (mvmul (skew (vneg (l_v3 o))) (snd (l_pair3 d)))))) /\
+  (forall X o gp d : list R, length X = 7%nat -> length o = 3%nat -> length gp = 3%nat -> length d = 3%nat ->
+     ldot (snd (act_bwd 1 X o gp)) d = ldot gp (v3_l (mvmul (SO3_Adj (snd (l_SE3 X))) (l_v3 d)))) /\
+  (forall X o gp d : list R, length X = 7%nat -> length o = 4%nat -> length gp = 4%nat -> length d = 6%nat ->
+     ldot (firstn 6 (fst (act4_bwd 1 X o gp))) d = ldot gp (v3_l (vadd (vscale (nth 3 o 0) (fst (l_pair3 d))) (mvmul (skew (vneg (l_v3 o))) (snd (l_pair3 d)))) ++ [0])) /\
+  (forall X o gp d : list R, length X = 7%nat -> length o = 4%nat -> length gp = 4%nat -> length d = 4%nat ->
+     ldot (snd (act4_bwd 1 X o gp)) d = ldot gp (v3_l (vadd (mvmul (SO3_Adj (snd (l_SE3 X))) (l_v3 d)) (vscale (nth 3 d 0) (fst (l_SE3 X)))) ++ [nth 3 d 0])) /\
+  (forall X o gz d : list R, length X = 7%nat -> length o = 6%nat -> length gz = 6%nat -> length d = 6%nat ->
+     ldot (firstn 6 (fst (adj_bwd 1 X o gz))) d = ldot gz (v6_l (v6neg (se3_ad (l_pair3 o) (l_pair3 d))))) /\
+  (forall X o gz d : list R, length X = 7%nat -> length o = 6%nat -> length gz = 6%nat -> length d = 6%nat ->
+     ldot (snd (adj_bwd 1 X o gz)) d = ldot gz (v6_l (SE3_AdjXa (l_SE3 X) (l_pair3 d)))) /\
+  (forall X a gz d : list R, length X = 7%nat -> length a = 6%nat -> length gz = 6%nat -> length d = 6%nat ->
+     ldot (firstn 6 (fst (adjT_bwd 1 X a gz))) d = ldot gz (v6_l (SE3_AdjTXa (l_SE3 X) (se3_ad (l_pair3 a) (l_pair3 d))))) /\
+  (forall X a gz d : list R, length X = 7%nat -> length a = 6%nat -> length gz = 6%nat -> length d = 6%nat ->
+     ldot (snd (adjT_bwd 1 X a gz)) d = ldot gz (v6_l (SE3_AdjTXa (l_SE3 X) (l_pair3 d)))).
+Proof. repeat split; [exact mul_bwd_SE3_X | exact mul_bwd_SE3_Y | exact inv_bwd_SE3 | exact act_bwd_SE3_X | exact act_bwd_SE3_p | exact act4_bwd_SE3_X | exact act4_bwd_SE3_p | exact adj_bwd_SE3_X | exact adj_bwd_SE3_a | exact adjT_bwd_SE3_X | exact adjT_bwd_SE3_a]. Qed.
+Theorem C04_backward_transpose_RxSO3 :
+  (forall X gz d : list R, length X = 5%nat -> length gz = 5%nat -> length d = 4%nat ->
+     ldot (firstn 4 (fst (mul_bwd 2 X gz))) d = ldot (firstn 4 gz) d) /\
+  (forall X gz d : list R, length X = 5%nat -> length gz = 5%nat -> length d = 4%nat ->
+     ldot (firstn 4 (snd (mul_bwd 2 X gz))) d = ldot (firstn 4 gz) (v4_l (RxSO3_AdjXa (l_RxSO3 X) (l_v4a d)))) /\
+  (forall X gz d : list R, length X = 5%nat -> length gz = 5%nat -> length d = 4%nat ->
+     ldot (firstn 4 (inv_bwd 2 X gz)) d = ldot (firstn 4 gz) (v4_l (v4neg (RxSO3_AdjXa (l_RxSO3 X) (l_v4a d))))) /\
+  (forall X o gp d : list R, length X = 5%nat -> length o = 3%nat -> length gp = 3%nat -> length d = 4%nat ->
+     ldot (firstn 4 (fst (act_bwd 2 X o gp))) d = ldot gp (v3_l (vadd (mvmul (skew (vneg (l_v3 o))) (fst (l_v4a d))) (vscale (snd (l_v4a d)) (l_v3 o))))) /\
+  (forall X o gp d : list R, length X = 5%nat -> length o = 3%nat -> length gp = 3%nat -> length d = 3%nat ->
+     ldot (snd (act_bwd 2 X o gp)) d = ldot gp (v3_l (mvmul (mscale3 (snd (l_RxSO3 X)) (SO3_Adj (fst (l_RxSO3 X)))) (l_v3 d)))) /\
+  (forall X o gp d : list R, length X = 5%nat -> length o = 4%nat -> length gp = 4%nat -> length d = 4%nat ->
+     ldot (firstn 4 (fst (act4_bwd 2 X o gp))) d = ldot gp (v3_l (vadd (mvmul (skew (vneg (l_v3 o))) (fst (l_v4a d))) (vscale (snd (l_v4a d)) (l_v3 o))) ++ [0])) /\
+  (forall X o gp d : list R, length X = 5%nat -> length o = 4%nat -> length gp = 4%nat -> length d = 4%nat ->
+     ldot (snd (act4_bwd 2 X o gp)) d = ldot gp (v3_l (vadd (mvmul (mscale3 (snd (l_RxSO3 X)) (SO3_Adj (fst (l_RxSO3 X)))) (l_v3 d)) (vscale (nth 3 d 0) (vzero))) ++ [nth 3 d 0])) /\
+  (forall X o gz d : list R, length X = 5%nat -> length o = 4%nat -> length gz = 4%nat -> length d = 4%nat ->
+     ldot (firstn 4 (fst (adj_bwd 2 X o gz))) d = ldot gz (v4_l (v4neg (rxso3_ad (l_v4a o) (l_v4a d))))) /\
+  (forall X o gz d : list R, length X = 5%nat -> length o = 4%nat -> length gz = 4%nat -> length d = 4%nat ->
+     ldot (snd (adj_bwd 2 X o gz)) d = ldot gz (v4_l (RxSO3_AdjXa (l_RxSO3 X) (l_v4a d)))) /\
+  (forall X a gz d : list R, length X = 5%nat -> length a = 4%nat -> length gz = 4%nat -> length d = 4%nat ->
+     ldot (firstn 4 (fst (adjT_bwd 2 X a gz))) d = ldot gz (v4_l (RxSO3_AdjTXa (l_RxSO3 X) (rxso3_ad (l_v4a a) (l_v4a d))))) /\
+  (forall X a gz d : list R, length X = 5%nat -> length a = 4%nat -> length gz = 4%nat -> length d = 4%nat ->
+     ldot (snd (adjT_bwd 2 X a gz)) d = ldot gz (v4_l (RxSO3_AdjTXa (l_RxSO3 X) (l_v4a d)))).
+Proof. repeat split; [exact mul_bwd_RxSO3_X | exact mul_bwd_RxSO3_Y | exact inv_bwd_RxSO3 | exact act_bwd_RxSO3_X | exact act_bwd_RxSO3_p | exact act4_bwd_RxSO3_X | exact act4_bwd_RxSO3_p | exact adj_bwd_RxSO3_X | exact adj_bwd_RxSO3_a | exact adjT_bwd_RxSO3_X | exact adjT_bwd_RxSO3_a]. Qed.
+Theorem C04_backward_transpose_Sim3 :
+  (forall X gz d : list R, length X = 8%nat -> length gz = 8%nat -> length d = 7%nat ->
+     ldot (firstn 7 (fst (mul_bwd 3 X gz))) d = ldot (firstn 7 gz) d) /\
+  (forall X gz d : list R, length X = 8%nat -> length gz = 8%nat -> length d = 7%nat ->
+     ldot (firstn 7 (snd (mul_bwd 3 X gz))) d = ldot (firstn 7 gz) (v7_l (Sim3_AdjXa (l_Sim3 X) (l_v7 d)))) /\
+  (forall X gz d : list R, length X = 8%nat -> length gz = 8%nat -> length d = 7%nat ->
+     ldot (firstn 7 (inv_bwd 3 X gz)) d = ldot (firstn 7 gz) (v7_l (v7neg (Sim3_AdjXa (l_Sim3 X) (l_v7 d))))) /\
+  (forall X o gp d : list R, length X = 8%nat -> length o = 3%nat -> length gp = 3%nat -> length d = 7%nat ->
+     ldot (firstn 7 (fst (act_bwd 3 X o gp))) d = ldot gp (v3_l (vadd (vadd (fst (fst (l_v7 d))) (mvmul (skew (vneg (l_v3 o))) (snd (fst (l_v7 d))))) (vscale (snd (l_v7 d)) (l_v3 o))))) /\
+  (forall X o gp d : list R, length X = 8%nat -> length o = 3%nat -> length gp = 3%nat -> length d = 3%nat ->
+     ldot (snd (act_bwd 3 X o gp)) d = ldot gp (v3_l (mvmul (mscale3 (snd (snd (l_Sim3 X))) (SO3_Adj (fst (snd (l_Sim3 X))))) (l_v3 d)))) /\
+  (forall X o gp d : list R, length X = 8%nat -> length o = 4%nat -> length gp = 4%nat -> length d = 7%nat ->
+     ldot (firstn 7 (fst (act4_bwd 3 X o gp))) d = ldot gp (v3_l (vadd (vadd (vscale (nth 3 o 0) (fst (fst (l_v7 d)))) (mvmul (skew (vneg (l_v3 o))) (snd (fst (l_v7 d))))) (vscale (snd (l_v7 d)) (l_v3 o))) ++ [0])) /\
+  (forall X o gp d : list R, length X = 8%nat -> length o = 4%nat -> length gp = 4%nat -> length d = 4%nat ->
+     ldot (snd (act4_bwd 3 X o gp)) d = ldot gp (v3_l (vadd (mvmul (mscale3 (snd (snd (l_Sim3 X))) (SO3_Adj (fst (snd (l_Sim3 X))))) (l_v3 d)) (vscale (nth 3 d 0) (fst (l_Sim3 X)))) ++ [nth 3 d 0])) /\
+  (forall X o gz d : list R, length X = 8%nat -> length o = 7%nat -> length gz = 7%nat -> length d = 7%nat ->
+     ldot (firstn 7 (fst (adj_bwd 3 X o gz))) d = ldot gz (v7_l (v7neg (sim3_ad (l_v7 o) (l_v7 d))))) /\
+  (forall X o gz d : list R, length X = 8%nat -> length o = 7%nat -> length gz = 7%nat -> length d = 7%nat ->
+     ldot (snd (adj_bwd 3 X o gz)) d = ldot gz (v7_l (Sim3_AdjXa (l_Sim3 X) (l_v7 d)))) /\
+  (forall X a gz d : list R, length X = 8%nat -> length a = 7%nat -> length gz = 7%nat -> length d = 7%nat ->
+     ldot (firstn 7 (fst (adjT_bwd 3 X a gz))) d = ldot gz (v7_l (Sim3_AdjTXa (l_Sim3 X) (sim3_ad (l_v7 a) (l_v7 d))))) /\
+  (forall X a gz d : list R, length X = 8%nat -> length a = 7%nat -> length gz = 7%nat -> length d = 7%nat ->
+     ldot (snd (adjT_bwd 3 X a gz)) d = ldot gz (v7_l (Sim3_AdjTXa (l_Sim3 X) (l_v7 d)))).
+Proof. repeat split; [exact mul_bwd_Sim3_X | exact mul_bwd_Sim3_Y | exact inv_bwd_Sim3 | exact act_bwd_Sim3_X | exact act_bwd_Sim3_p | exact act4_bwd_Sim3_X | exact act4_bwd_Sim3_p | exact adj_bwd_Sim3_X | exact adj_bwd_Sim3_a | exact adjT_bwd_Sim3_X | exact adjT_bwd_Sim3_a]. Qed.
+
+(* the list-level matrices of Model/LieJac.v applied to a vector are the tuple-level maps L used above *)
+Theorem C04_list_matrices_are_L_groups :
+  (forall (X : se3R) (d : list R), length d = 6%nat -> lmv (SE3_AdjM X) d = v6_l (SE3_AdjXa X (l_pair3 d))) /\
+  (forall x d : list R, length d = 6%nat -> lmv (se3_adjM x) d = v6_l (se3_ad (l_pair3 x) (l_pair3 d))) /\
+  (forall (X : rxso3R) (d : list R), length d = 4%nat -> lmv (RxSO3_AdjM X) d = v4_l (RxSO3_AdjXa X (l_v4a d))) /\
+  (forall x d : list R, length d = 4%nat -> lmv (rxso3_adjM x) d = v4_l (rxso3_ad (l_v4a x) (l_v4a d))) /\
+  (forall (X : sim3R) (d : list R), length d = 7%nat -> lmv (Sim3_AdjM X) d = v7_l (Sim3_AdjXa X (l_v7 d))) /\
+  (forall x d : list R, length d = 7%nat -> lmv (sim3_adjM x) d = v7_l (sim3_ad (l_v7 x) (l_v7 d))).
+Proof.
+  split; [exact SE3_AdjM_is_Adj | split; [exact se3_adjM_is_ad | split; [exact RxSO3_AdjM_is_Adj | split; [exact rxso3_adjM_is_ad |
+  split; [exact Sim3_AdjM_is_Adj | exact sim3_adjM_is_ad]]]]].
+Qed.
+
 Print Assumptions C04_exp_near_zero_is_model. Print Assumptions C04_SO3_perturbation. Print Assumptions C04_SE3_perturbation.
 Print Assumptions C04_SO3_Mul_dX. Print Assumptions C04_SO3_Mul_dY. Print Assumptions C04_SO3_Inv.
 Print Assumptions C04_SO3_Act_dX. Print Assumptions C04_SO3_Act_dp. Print Assumptions C04_SO3_Adj_dX. Print Assumptions C04_SO3_Adj_da.
 Print Assumptions C04_SE3_Act_dX. Print Assumptions C04_SE3_Act_dp. Print Assumptions C04_SE3_Mul_dX. Print Assumptions C04_SE3_AdjT_old_refuted. Print Assumptions C04_backward_is_transpose. Print Assumptions C04_list_matrices_are_L.
+Print Assumptions C04_SO3_AdjT_dX.
+Print Assumptions C04_SO3_AdjT_da.
+Print Assumptions C04_SO3_AdjT_dX_curve.
+Print Assumptions C04_SE3_perturbation_start.
+Print Assumptions C04_SE3_Mul_dY.
+Print Assumptions C04_SE3_Inv.
+Print Assumptions C04_SE3_Adj_dX.
+Print Assumptions C04_SE3_Adj_da.
+Print Assumptions C04_SE3_AdjT_dX.
+Print Assumptions C04_SE3_AdjT_da.
+Print Assumptions C04_SE3_Mul_dX_curve.
+Print Assumptions C04_SE3_Mul_dY_curve.
+Print Assumptions C04_SE3_Inv_curve.
+Print Assumptions C04_SE3_Adj_dX_curve.
+Print Assumptions C04_SE3_Adj_da_curve.
+Print Assumptions C04_SE3_AdjT_dX_curve.
+Print Assumptions C04_SE3_AdjT_da_curve.
+Print Assumptions C04_curve_predicates.
+Print Assumptions C04_RxSO3_exp_near_zero_is_model.
+Print Assumptions C04_RxSO3_perturbation.
+Print Assumptions C04_RxSO3_Mul_dX.
+Print Assumptions C04_RxSO3_Mul_dY.
+Print Assumptions C04_RxSO3_Inv.
+Print Assumptions C04_RxSO3_Act_dX.
+Print Assumptions C04_RxSO3_Act_dp.
+Print Assumptions C04_RxSO3_Adj_dX.
+Print Assumptions C04_RxSO3_Adj_da.
+Print Assumptions C04_RxSO3_AdjT_dX.
+Print Assumptions C04_RxSO3_AdjT_da.
+Print Assumptions C04_RxSO3_Mul_dX_curve.
+Print Assumptions C04_RxSO3_Mul_dY_curve.
+Print Assumptions C04_RxSO3_Inv_curve.
+Print Assumptions C04_RxSO3_Act_dX_curve.
+Print Assumptions C04_RxSO3_Act_dp_curve.
+Print Assumptions C04_RxSO3_Adj_dX_curve.
+Print Assumptions C04_RxSO3_AdjT_dX_curve.
+Print Assumptions C04_Sim3_exp_near_zero_is_model.
+Print Assumptions C04_Sim3_perturbation.
+Print Assumptions C04_Sim3_Mul_dX.
+Print Assumptions C04_Sim3_Mul_dY.
+Print Assumptions C04_Sim3_Inv.
+Print Assumptions C04_Sim3_Act_dX.
+Print Assumptions C04_Sim3_Act_dp.
+Print Assumptions C04_Sim3_Adj_dX.
+Print Assumptions C04_Sim3_Adj_da.
+Print Assumptions C04_Sim3_AdjT_dX.
+Print Assumptions C04_Sim3_AdjT_da.
+Print Assumptions C04_Sim3_Mul_dX_curve.
+Print Assumptions C04_Sim3_Mul_dY_curve.
+Print Assumptions C04_Sim3_Inv_curve.
+Print Assumptions C04_Sim3_Act_dX_curve.
+Print Assumptions C04_Sim3_Act_dp_curve.
+Print Assumptions C04_Sim3_Adj_dX_curve.
+Print Assumptions C04_Sim3_AdjT_dX_curve.
+Print Assumptions C04_Sim3_hypotheses_satisfiable.
+Print Assumptions C04_SO3_Act_dX_curve.
+Print Assumptions C04_SO3_Act_dp_curve.
+Print Assumptions C04_SE3_Act_dX_curve.
+Print Assumptions C04_SE3_Act_dp_curve.
+Print Assumptions C04_SO3_Act4_dX_curve.
+Print Assumptions C04_SO3_Act4_dp_curve.
+Print Assumptions C04_SE3_Act4_dX_curve.
+Print Assumptions C04_SE3_Act4_dp_curve.
+Print Assumptions C04_RxSO3_Act4_dX_curve.
+Print Assumptions C04_RxSO3_Act4_dp_curve.
+Print Assumptions C04_Sim3_Act4_dX_curve.
+Print Assumptions C04_Sim3_Act4_dp_curve.
+Print Assumptions C04_perturbation_curves.
+Print Assumptions C04_so3_Exp_dx.
+Print Assumptions C04_so3_Exp_dx_zero.
+Print Assumptions C04_rxso3_Exp_dx.
+Print Assumptions C04_se3_Exp_dx.
+Print Assumptions C04_SO3_Log_dX.
+Print Assumptions C04_SO3_Log_dX_curve.
+Print Assumptions C04_RxSO3_Log_dX_curve.
+Print Assumptions C04_Log_hypotheses_satisfiable.
+Print Assumptions C04_backward_transpose_SO3.
+Print Assumptions C04_backward_transpose_SE3.
+Print Assumptions C04_backward_transpose_RxSO3.
+Print Assumptions C04_backward_transpose_Sim3.
+Print Assumptions C04_list_matrices_are_L_groups.
+Print Assumptions C04_SO3_Mul_dX_curve.
+Print Assumptions C04_SO3_Mul_dY_curve.
+Print Assumptions C04_SO3_Inv_curve.
+Print Assumptions C04_SO3_Retr_da.
+Print Assumptions C04_SO3_Retr_dX.
+Print Assumptions C04_SE3_composite_inv_mul_act.
